@@ -965,6 +965,98 @@ func (x *extractor) factsVerify() {
 			return true
 		})
 	}
+	// the verifier keeps nothing between handshakes: the function is a single `return func(...)`, the verification
+	// options (with the current time) are built inside it, and the pin is compared with the digest of the leaf only
+	closure, pinSubject := "unknown", "unknown"
+	if fd := x.fn(netceptorGo, "", "ReceptorVerifyFunc"); fd != nil {
+		if len(fd.Body.List) == 1 {
+			if rs, ok := fd.Body.List[0].(*ast.ReturnStmt); ok && len(rs.Results) == 1 {
+				if fl, ok := rs.Results[0].(*ast.FuncLit); ok {
+					nowIn := 0
+					ast.Inspect(fl, func(n ast.Node) bool {
+						if kv, ok := n.(*ast.KeyValueExpr); ok && x.str(kv.Key) == "CurrentTime" && x.str(kv.Value) == "time.Now()" {
+							nowIn++
+						}
+						return true
+					})
+					closure = fmt.Sprintf("single-return-closure;CurrentTime:time.Now()x%d", nowIn)
+					if len(fl.Body.List) > 0 {
+						if is, ok := fl.Body.List[0].(*ast.IfStmt); ok && x.str(is.Cond) == "len(rawCerts) == 0" && strings.Contains(x.str(is.Body), "return fmt.Errorf(") {
+							closure += ";empty-chain:refused"
+						}
+					}
+				}
+			}
+		} else {
+			closure = fmt.Sprintf("statements-before-closure:%d", len(fd.Body.List)-1)
+		}
+		var subj []string
+		ast.Inspect(fd, func(n ast.Node) bool {
+			if is, ok := n.(*ast.IfStmt); ok && x.str(is.Cond) == "len(pinnedFingerprints) > 0" {
+				ast.Inspect(is.Body, func(m ast.Node) bool {
+					switch v := m.(type) {
+					case *ast.CallExpr:
+						if strings.HasSuffix(x.str(v.Fun), "sumFunc") && len(v.Args) == 1 {
+							subj = append(subj, x.str(v.Args[0]))
+						}
+					case *ast.RangeStmt:
+						if r := x.str(v.X); r == "rawCerts" || r == "certs" {
+							subj = append(subj, "range:"+r)
+						}
+					}
+					return true
+				})
+				return false
+			}
+			return true
+		})
+		pinSubject = strings.Join(subj, ";")
+	}
+	x.set("rvf_closure", closure)
+	x.set("rvf_pin_subject", pinSubject)
+	// which client authentication a server profile asks for, and when the stream listener binds the client name
+	clientAuth, bind := "unknown", "unknown"
+	if fd := x.fn("pkg/netceptor/tlsconfig.go", "TLSServerConfig", "PrepareTLSServerConfig"); fd != nil {
+		var parts []string
+		assigns := 0
+		ast.Inspect(fd, func(n ast.Node) bool {
+			switch v := n.(type) {
+			case *ast.AssignStmt:
+				if len(v.Lhs) == 1 && x.str(v.Lhs[0]) == "tlscfg.ClientAuth" {
+					assigns++
+				}
+			case *ast.SwitchStmt:
+				if v.Tag == nil && strings.Contains(x.str(v.Body), "tlscfg.ClientAuth") {
+					for _, st := range v.Body.List {
+						cc := st.(*ast.CaseClause)
+						lbl := "default"
+						if len(cc.List) == 1 {
+							lbl = x.str(cc.List[0])
+						}
+						val := "?"
+						if len(cc.Body) == 1 {
+							if as, ok := cc.Body[0].(*ast.AssignStmt); ok && x.str(as.Lhs[0]) == "tlscfg.ClientAuth" {
+								val = strings.TrimPrefix(x.str(as.Rhs[0]), "tls.")
+							}
+						}
+						parts = append(parts, lbl+":"+val)
+					}
+				}
+			}
+			return true
+		})
+		clientAuth = strings.Join(parts, ";") + fmt.Sprintf(";assignments:%d", assigns)
+	}
+	if fd := x.fn("pkg/netceptor/conn.go", "Netceptor", "listen"); fd != nil {
+		ast.Inspect(fd, func(n ast.Node) bool {
+			if is, ok := n.(*ast.IfStmt); ok && strings.Contains(x.str(is.Body), "tlscfg.GetConfigForClient = ") && !strings.Contains(x.str(is.Cond), "tlscfg == nil") {
+				bind = x.str(is.Cond)
+			}
+			return true
+		})
+	}
+	x.set("tls_server_clientauth", clientAuth)
+	x.set("tls_listener_bind_when", bind)
 	x.set("rvf_pin_lengths", pins)
 	x.set("rvf_steps", steps)
 	x.set("rvf_usages", usages)
